@@ -26,7 +26,9 @@ def p_grid(rng, nrandom):
     for n in (1, 2, 3, 4):
         for k in range(0, n + 1):
             v = k / n
-            for w in (v, math.nextafter(v, 2.0), math.nextafter(v, -1.0)):
+            for w in (v, math.nextafter(v, 2.0), math.nextafter(v, -1.0),
+                      # not within rounding of the boundary, but close: a tolerance in the whole-number test shows here
+                      v + 1e-10, v - 1e-10, v + 1e-12, v - 1e-12, v + 3e-15, v - 3e-15, v + 1e-7, v - 1e-7):
                 if 0.0 <= w <= 1.0:
                     ps.add(w)
     ps.add(-0.0)
@@ -44,8 +46,19 @@ def shard(desc):
         c = Case('%s-%d' % (desc['name'], i), 'Quantile', [p])
         c.op('N', 0)
         marks = []
+        noisy = (i % 7 == 3)
         for k, x in enumerate(seq, 1):
             c.op('A', 0, [x])
+            if noisy and all(abs(v_) != math.inf for v_ in seq[:k]):
+                # an invisible operation before the observation: serde round trip (both formats) or clone + clone_from
+                which = (i // 7 + k) % 3
+                if which == 2:
+                    c.op('K', 29, 0)
+                    c.op('Q', 0, p)
+                    c.op('KF', 0, 29)
+                else:
+                    c.op('S', 0, 'jv'[which])
+                res.count('invisible_ops')
             marks.append((c.op('O', 0), k))
         cases.append(c)
         plan.append((c, p, seq, marks))
